@@ -100,6 +100,19 @@ Theorem C08_fifo_order : forall tr s, run init tr = Some s ->
   flat_map recv_of tr ++ qtasks (queue s) = submitted s /\ submitted s = flat_map exec_of tr.
 Proof. exact fifo_order. Qed.
 
+(* Each submitted id is handed to a worker at most once along any trace, and exactly once (in submission order) as
+   soon as nothing is left queued. *)
+Theorem C08_each_task_received_once : forall tr s, run init tr = Some s ->
+  NoDup (flat_map recv_of tr) /\ (qtasks (queue s) = [] -> flat_map recv_of tr = submitted s).
+Proof. exact each_task_received_once. Qed.
+
+(* "Recover w is eventually enabled": a pending request is served right after the requests queued before it, the
+   worker is Idle again afterwards, and neither the queue nor `done` is touched on the way. *)
+Theorem C08_recover_eventually : forall tr s, run init tr = Some s -> forall l1 w l2, rchan s = l1 ++ w :: l2 ->
+  exists s1 s2, run s (map Recover l1) = Some s1 /\ step s1 (Recover w) = Some s2 /\
+                ws s2 w = Idle /\ queue s2 = queue s /\ done s2 = done s /\ rchan s2 = l2.
+Proof. exact recover_eventually_reachable. Qed.
+
 (* The caller is never blocked, whether or not stop was called first: Stop is a single enabled step; DropBegin is
    enabled in every live handle state and, whatever the other threads do meanwhile, DropEnd stays enabled. *)
 Theorem C08_drop_terminates_either_way : forall tr s, run init tr = Some s ->
@@ -167,6 +180,8 @@ Print Assumptions C08_shutdown_terminates.
 Print Assumptions C08_workers_cannot_run_forever.
 Print Assumptions C08_no_pending_work_when_quiescent.
 Print Assumptions C08_fifo_order.
+Print Assumptions C08_each_task_received_once.
+Print Assumptions C08_recover_eventually.
 Print Assumptions C08_drop_terminates_either_way.
 Print Assumptions C08_drop_without_stop_refuted.
 Print Assumptions C08_old_differs_only_in_drop.
